@@ -148,6 +148,9 @@ func (tm *typesMap) SetFuncName(funcName string, typs ...types.Type) (string, er
 	tm.funcToTyps[funcName] = typs
 	tm.typss = append(tm.typss, typs)
 	tm.names = append(tm.names, funcName)
+	// The other plugins of the package must not make up this name for a function of theirs:
+	// with customised prefixes the names of two plugins can meet (hash=h, equal=h_T).
+	tm.reserved[funcName] = struct{}{}
 	return funcName, nil
 }
 
